@@ -25,6 +25,7 @@ func HarnessC11Resolve() {
 	nSub := verif.Param("nSub", 3)
 	nRel := verif.Param("nRel", 5)
 	relStr := verif.Bytes("rel", nRel)
+	verif.Assume(verifValidUTF8(relStr)) // addresses are valid UTF-8 (fs.ValidPath refuses other names)
 	rel, err := ParseLocalSource(relStr)
 	verif.Assume(err == nil)
 	verif.Reach("rel-accepted")
@@ -140,6 +141,7 @@ func HarnessC11Compose() {
 	verif.Assume(c11ValidSub(sub))
 	bStr := verif.Bytes("b", verif.Param("nB", 4))
 	cStr := verif.Bytes("c", verif.Param("nC", 4))
+	verif.Assume(verifValidUTF8(bStr) && verifValidUTF8(cStr))
 	b, err := ParseLocalSource(bStr)
 	verif.Assume(err == nil)
 	c, err := ParseLocalSource(cStr)
